@@ -3,6 +3,7 @@
 package state
 
 import (
+	"bytes"
 	"time"
 
 	"github.com/tendermint/tendermint/crypto"
@@ -109,9 +110,26 @@ func vpC06Validate() {
 	st, keys, id1, t1 := vpC06State()
 	commit, offs := vpC06Commit(st, keys, id1, t1)
 	proposer := st.Validators.GetProposer().Address
+	// a validator-set change may be in flight: the next set then lacks this height's proposer and has a newcomer
+	changing := vp.Bool("validator-set-change-in-flight")
+	joiner := types.NewValidator(ed25519.GenPrivKeyFromSecret([]byte("c6-joiner")).PubKey(), 10)
+	if changing {
+		var next []*types.Validator
+		for _, v := range st.NextValidators.Validators {
+			if !bytes.Equal(v.Address, proposer) {
+				next = append(next, types.NewValidator(v.PubKey, v.VotingPower))
+			}
+		}
+		st.NextValidators = types.NewValidatorSet(append(next, joiner))
+		vp.Reach("set-changing?")
+	}
 	block, _ := st.MakeBlock(2, []types.Tx{{2}, {3, 4}}, commit, nil, proposer)
 	genuine := true
-	switch vp.Choice("perturb", 16) {
+	switch vp.Choice("perturb", 17) {
+	case 16:
+		// proposed by someone who is in the next set only
+		block.ProposerAddress = joiner.Address
+		genuine = false
 	case 0:
 	case 1:
 		block.Version.App++
